@@ -171,3 +171,8 @@ func zzH_C19_shuffle() { zzConcurrentEvals(3, [][]int{{2}, {3}}, 1) }
 
 // three runs
 func zzH_C19_three() { zzConcurrentEvals(6, [][]int{{0}, {1}, {1}}, 0) }
+
+// one run needs {t, x}, the other only t: when x fails the first run is gone
+// while t may still be lost and must then be resubmitted by the run that is
+// left, although it did not submit t itself
+func zzH_C19_runnerGone() { zzConcurrentEvals(8, [][]int{{0, 1}, {0}}, 1) }
